@@ -262,7 +262,7 @@ func c10Gen(c *Ctx) {
 	// full observation (Len IsEmpty IsFull Cap Peek) after every step, Dump + drain at the end.
 	type op2 [2]int64
 	ringAlpha := []op2{{0, 0}, {1, 0}, {8, 0}, {7, 1}, {7, 2}, {7, 3}, {7, 4}, {7, 6}, {9, 2}, {7, 0}}
-	L := c.N(4, 6)
+	L := c.N(5, 6)
 	enumerate := func(family string, kind int64, caps []int64, injs func(cp int64) []int64, alpha []op2, L int, obs []int64) {
 		sizes := []int{1}
 		total := 1
